@@ -41,9 +41,24 @@ def candidates():
     fx = [("short", "i16", -8, -8), ("short", "i16", -4, -10), ("int", "i32", -16, -16), ("int", "i32", -8, -20), ("signed char", "i8", -3, -4), ("long", "i64", -30, -30), ("unsigned short", "u16", -8, -8), ("unsigned", "u32", -16, -8),
           ("signed char", "i8", -4, 0), ("signed char", "i8", 0, -4), ("unsigned char", "u8", -2, -6), ("short", "i16", -10, -4), ("unsigned short", "u16", 0, -8), ("int", "i32", -20, -8)]
     for tc, tn, e1, e2 in fx:
-        for k in ["MULWIDEN", "MIXADD", "AVERAGE", "SQUARE", "INCDEC", "MIXCMP"]:
+        for k in ["MULWIDEN", "MIXADD", "AVERAGE", "SQUARE", "INCDEC", "MIXCMP", "MIXSUB", "MIXOR"]:
             d = "fixed<%s,%d,%d> %s" % (tn, e1, e2, k)
             out[d] = ("fixed", "c12::fixedpoint<%s,%d,%d,c12::%s>" % (tc, e1, e2, k))
+    # the same kernels for decimal scaling (the twin multiplies by 10^k), both operand orders
+    fx10 = [("int", "i32", -2, 1), ("int", "i32", 1, -2), ("short", "i16", -1, 0), ("short", "i16", 0, -2), ("long", "i64", -6, -2), ("long", "i64", -2, -6), ("unsigned", "u32", 0, -3), ("unsigned", "u32", -3, 0),
+            ("signed char", "i8", -1, 0), ("signed char", "i8", 0, -1), ("unsigned short", "u16", 2, 0), ("int", "i32", -4, -4)]
+    for tc, tn, e1, e2 in fx10:
+        for k in ["MULWIDEN", "MIXADD", "SQUARE", "INCDEC", "MIXCMP", "MIXSUB", "MIXOR"]:
+            d = "fixed<%s,%d,%d,r10> %s" % (tn, e1, e2, k)
+            out[d] = ("fixed", "c12::fixedpoint<%s,%d,%d,c12::%s,10>" % (tc, e1, e2, k))
+    # a cnl::constant<N> operand (value type of N as written): every unsigned and signed rep, negative and >= 2^31 constants
+    cops = ["ADD", "SUB", "MUL", "DIV", "MOD", "AND", "OR", "XOR", "LT", "LE", "GT", "GE", "EQ", "NE"]
+    for n in ["O", "R", "OR", "RO"]:   # (a scaled_integer outermost turns constant<2^k * m> into m at exponent k: not a built-in twin)
+        for tc, tn in TS:
+            for nv, nn in (("2", "2"), ("-3", "-3"), ("2147483648L", "2^31"), ("-1", "-1"), ("255", "255")):
+                for op in cops:
+                    d = "%s<%s> %s const %s" % (n, tn, op, nn)
+                    out[d] = ("const", "c12::native_const<%s,%s,c12::%s,%s>" % (wtype(n, tc), tc, op, nv))
     return out
 
 
@@ -59,7 +74,12 @@ def run(tier, seed, only=None):
     fixed = [k for k in uni if k["kind"] == "fixed"]
     nat = [k for k in uni if k["kind"] == "native"]
     mixed = [k for k in uni if k["kind"] == "mixed"]
+    const = [k for k in uni if k["kind"] == "const"]
+    # constants: every (nesting, rep) once with a negative constant in the core, then a seeded sample
+    ccore = [k for k in const if k["desc"].endswith(("SUB const -3", "LT const -1", "AND const -3", "SUB const 2", "ADD const 2^31"))]
+    ccore = ccore[:: max(1, len(ccore) // 60)]
     ks = fixed + (nat if tier == "thorough" else nat[:150] + rng.sample(nat[150:], 350)) + (mixed if tier == "thorough" or len(mixed) <= 300 else mixed[:60] + rng.sample(mixed[60:], 240))
+    ks += const if tier == "thorough" else ccore + rng.sample([k for k in const if k not in ccore], min(60, max(0, len(const) - len(ccore))))
     if only:
         ks = [k for k in uni if k["desc"] == only["kernel"]]
     cfgs = ["g-san", "g-rel"] if tier == "quick" else ["g-san", "g-rel", "c-rel", "c-san"]
